@@ -116,3 +116,12 @@ pub fn vx_swap_remove_front<T>(v: &mut VecDeque<T>, i: usize) -> (r: Option<T>)
         i >= old(v)@.len() ==> r.is_none() && final(v)@ == old(v)@,
         i < old(v)@.len() ==> r == Some(old(v)@[i as int]) && final(v)@ == (if i == 0 { old(v)@.drop_first() } else { old(v)@.update(i as int, old(v)@.first()).drop_first() }),
 { unimplemented!() }
+// std::mem::take on the idle queue and VecDeque::append (no vstd spec; A5)
+#[verifier::external_body]
+pub fn vx_mem_take_deque<T>(v: &mut VecDeque<T>) -> (r: VecDeque<T>)
+    ensures r@ == old(v)@, final(v)@.len() == 0
+{ unimplemented!() }
+#[verifier::external_body]
+pub fn vx_deque_append<T>(a: &mut VecDeque<T>, b: &mut VecDeque<T>)
+    ensures final(a)@ == old(a)@ + old(b)@, final(b)@.len() == 0
+{ unimplemented!() }
